@@ -140,6 +140,12 @@ func runC20(p *Prog, r *Report, tier string) {
 			}
 			sl, isSlice := s.Val.(*ssa.Slice)
 			if !isSlice {
+				// eviction and insertion in one statement: flowRecords = append(flowRecords[1:], entry)
+				if c, ok := s.Val.(*ssa.Call); ok && calleeName(&c.Call) == "builtin:append" && len(c.Call.Args) == 2 {
+					sl, isSlice = c.Call.Args[0].(*ssa.Slice)
+				}
+			}
+			if !isSlice {
 				return
 			}
 			nEv++
